@@ -6,7 +6,10 @@ Workload: LinearModel instances built from dense/sparse matrices and from record
 without inverse), KLExpansion full/truncated, StepExpansion n_steps = / < n_grid, CustomKL,
 KLExpansion_Full), function pairs that return views of their argument (identity, down-sampling, windowing,
 reversal, image transpose), their .T and .T.T (taken before and after the matrix was cached), parameter vectors
-arriving as plain ndarrays and wrapped as CUQIarray (own / equal / same-class-other-settings / default geometry), and the
+arriving as plain ndarrays, as read-only strided views, wrapped as CUQIarray (own / equal / same-class-other-settings /
+default geometry) and as cuqi.samples.Samples batches (Ns = 1, 2, 5; model's or default geometry) through forward / adjoint /
+T.forward / T.adjoint - including per-vector callables that are shape preserving on 2-D input (convolve1d, roll, flip,
+cumsum, reverse) -, operators scaled by 10^-20..10^16 or with 18 decades of dynamic range, and the
 models of the shipped linear test problems (Deconvolution1D incl. legacy, Deconvolution2D,
 Abel1D, _Deconv_1D, _Deblur) under all their options.
 
@@ -43,10 +46,10 @@ ASSUMPTIONS = ["inner products are Euclidean in parameter space (what CGLS/Linea
 REQUIRED_COUNTERS = {
     "quick": {"adjoint_entries_compared": 150000, "inner_products_checked": 1300, "matrix_columns_compared": 7000,
               "transpose_applications_compared": 17000, "transpose_matrix_compared": 600, "proxy_call_windows_checked": 2500,
-              "conv1d_columns_compared": 800, "forward_vs_user_operator_compared": 900, "wrapped_inputs_compared": 1000},
+              "conv1d_columns_compared": 800, "forward_vs_user_operator_compared": 900, "wrapped_inputs_compared": 1000, "samples_columns_compared": 10000},
     "thorough": {"adjoint_entries_compared": 1500000, "inner_products_checked": 4000, "matrix_columns_compared": 40000,
                  "transpose_applications_compared": 90000, "transpose_matrix_compared": 1800, "proxy_call_windows_checked": 7000,
-                 "conv1d_columns_compared": 5000, "forward_vs_user_operator_compared": 5000, "wrapped_inputs_compared": 3000},
+                 "conv1d_columns_compared": 5000, "forward_vs_user_operator_compared": 5000, "wrapped_inputs_compared": 3000, "samples_columns_compared": 30000},
 }
 BUDGET_S = {"quick": 240.0, "thorough": 2400.0}
 
@@ -205,7 +208,7 @@ def cases(tier, seed):
                                 "t_order": t_order, "op": r.choice(["dense", "dense", "symmetric_square", "sparse"]), "rep": rep,
                                 "scale": SCALES[(k // 2) % len(SCALES)]})
     # ---- function-backed models whose callables return views / aliases of their input (selection operators)
-    for view in ("identity", "downsample", "window", "reverse"):
+    for view in ("identity", "downsample", "window", "reverse", "convolve1d", "roll", "flip", "cumsum_last"):
         for g in ("default", "cont1d", "cont1d_grid", "discrete", "step_eq", "image_visual"):
             for t_order in ("before", "after"):
                 for rep in range(1 if quick else 3):
@@ -806,6 +809,86 @@ def wrapped_inputs(model, ctx, cfg, rs, res, dspec, rspec, label):
                     J.viol("adjoint_mismatch", f"<A x, y> = {lhs:.12g} but <x, A* y> = {rhs:.12g} with x wrapped as CUQIarray({wnx}) and y as CUQIarray({wny})",
                            {"form": "wrapped_inputs"})
 
+# ----------------------------------------------------------------------------- Samples (batches of parameter vectors) and array variants
+
+def samples_inputs(model, ctx, cfg, rs, res, label, ref=None):
+    """forward / adjoint / T.forward / T.adjoint of a cuqi.samples.Samples object must act on every sample as the single-vector
+    call does (column i of the result == forward(x_i) == A_f x_i), whatever geometry the Samples object carries; the inner-product
+    identity must hold on the sample columns.  Also: read-only, non-contiguous views as inputs, and inputs left unchanged."""
+    import cuqi
+    Samples = cuqi.samples.Samples
+    Af, Aa = res["Af"], res["Aa"]
+    if Af is None or Aa is None:
+        return
+    m, n = Af.shape
+    sc = _scale(Af, Aa)
+    J = _Judge(ctx, cfg, label)
+    kT, T = core.outcome(lambda: model.T)
+    ops = [("forward", model.forward, model.domain_geometry, Af, n, m), ("adjoint", model.adjoint, model.range_geometry, Aa, m, n)]
+    if kT == "value":
+        ops += [("T.forward", T.forward, model.range_geometry, Aa, m, n), ("T.adjoint", T.adjoint, model.domain_geometry, Af, n, m)]
+    outs = {}
+    for opname, fn, geom, Mref, nin, nout in ops:
+        for Ns in (1, 2, 5):
+            for gname, g in (("model", geom), ("default", None)):
+                X = rs.standard_normal((nin, Ns))
+                X0 = X.copy()
+                k, out = core.outcome(lambda: fn(Samples(X, geometry=g) if g is not None else Samples(X)))
+                ctx.count("samples_calls_compared")
+                extra = {"op": opname, "Ns": Ns, "samples_geometry": gname}
+                if k != "value":
+                    J.viol("samples_input_mismatch", f"{opname}(Samples of {Ns}) {k}: {out!r}", extra)
+                    continue
+                V = np.asarray(getattr(out, "samples", out), dtype=float)
+                if V.shape != (nout, Ns):
+                    J.viol("samples_input_mismatch", f"{opname}(Samples of {Ns}) has shape {V.shape}, expected {(nout, Ns)}", extra)
+                    continue
+                want = Mref @ X0
+                # (T of a model with a user-map geometry applies the map twice - known finding - so there T is only held
+                #  against its own single-vector calls)
+                t_known_wrong = opname.startswith("T.") and not (cfg.get("dom_class") in ("identity", "reshape") and cfg.get("ran_class") in ("identity", "reshape"))
+                bad = [] if t_known_wrong else [i for i in range(Ns) if not J.same(V[:, i], want[:, i], sc * np.abs(X0[:, i]).sum())]
+                single_bad = []
+                for i in range(Ns):
+                    k1, v1 = _apply(fn, X0[:, i].copy(), nout)
+                    if k1 != "value" or not J.same(V[:, i], v1, sc * np.abs(X0[:, i]).sum()):
+                        single_bad.append(i)
+                ctx.count("samples_columns_compared", Ns)
+                if bad or single_bad:
+                    i = (bad or single_bad)[0]
+                    J.viol("samples_input_mismatch", f"{opname}(Samples of {Ns})[:, {i}] differs from {opname}(x_{i}) "
+                           f"(max diff {_maxdiff(V[:, i], want[:, i]):.3g}, scale {sc:.3g}); columns off vs matrix {bad}, vs single call {single_bad}", extra)
+                if not np.array_equal(X, X0):
+                    J.viol("input_modified", f"{opname} changed the sample array passed to it", extra)
+                outs[(opname, Ns, gname)] = (X0, V)
+    # inner products on the sample columns
+    if res["adj_ok"]:
+        for Ns in (2, 5):
+            a, b = outs.get(("forward", Ns, "model")), outs.get(("adjoint", Ns, "default"))
+            if a and b:
+                (X, AX), (Y, AtY) = a, b
+                for i in range(Ns):
+                    ctx.count("inner_products_checked")
+                    lhs, rhs = float(AX[:, i] @ Y[:, i]), float(X[:, i] @ AtY[:, i])
+                    if not abs(lhs - rhs) <= 1e-9 * np.linalg.norm(Af) * np.linalg.norm(X[:, i]) * np.linalg.norm(Y[:, i]) + 1e-300:
+                        J.viol("adjoint_mismatch", f"sample column {i}: <A x_i, y_i> = {lhs:.12g} but <x_i, A* y_i> = {rhs:.12g} (Samples inputs)", {"form": "samples_inputs"})
+    # read-only, strided views
+    for opname, fn, geom, Mref, nin, nout in ops[:2]:
+        big = rs.standard_normal(2 * nin)
+        v = big[::2]
+        v.setflags(write=False)
+        keep = v.copy()
+        k, out = core.outcome(lambda: fn(v))
+        ctx.count("array_variants_compared")
+        if k != "value":
+            J.viol("array_variant_mismatch", f"{opname}(read-only strided view) {k}: {out!r}", {"op": opname})
+        else:
+            out = _flat_out(out, nout)
+            if out.shape != (nout,) or not J.same(out, Mref @ keep, sc * np.abs(keep).sum()):
+                J.viol("array_variant_mismatch", f"{opname}(read-only strided view) differs from {opname} of the same values", {"op": opname})
+        if not np.array_equal(v, keep):
+            J.viol("input_modified", f"{opname} changed its input vector", {"op": opname})
+
 # ----------------------------------------------------------------------------- recorded callables
 
 class _Recorder:
@@ -904,6 +987,7 @@ def _run_matrix(case, ctx, cfg, rs):
             doc=make_doc(built, lambda f: A @ f, lambda f: A.T @ f, raw=_dense(A)))
     if must:
         wrapped_inputs(built, ctx, cfg, rs, r0, dspec, rspec, "matrix-backed")
+        samples_inputs(built, ctx, cfg, rs, r0, "matrix-backed")
     # the matrix handed over must not have been modified
     ctx.count("input_matrix_unchanged_checked")
     if not np.array_equal(_dense(A), M):
@@ -972,6 +1056,7 @@ def _run_func(case, ctx, cfg, rs):
         fw, aw = _make_pair(M, dshape, rshape, _Recorder())
         mw = cuqi.model.LinearModel(fw, aw, range_geometry=_build_geom(rspec), domain_geometry=_build_geom(dspec))
         wrapped_inputs(mw, ctx, cfg, rs, r1, dspec, rspec, "function-backed")
+        samples_inputs(mw, ctx, cfg, rs, r1, "function-backed")
     if rec.bad_inputs and must:
         ctx.violation("callable_input_shape", cfg, detail=f"user callables received inputs that are not function values of the geometry: {rec.bad_inputs[:3]}")
     ctx.note("user_calls", {"fwd": rec.fwd, "adj": rec.adj})
@@ -1000,6 +1085,24 @@ def _run_funcview(case, ctx, cfg, rs):
         def adj(y):
             z = np.zeros(nd); z[a:b] = y
             return z
+    elif view in ("convolve1d", "roll", "flip", "cumsum_last"):
+        # written for one vector, but shape preserving (and wrong along the last axis) if handed a whole (n, Ns) array
+        from scipy.ndimage import convolve1d
+        idx = None
+        if view == "convolve1d":
+            w = rs.uniform(0.1, 1.0, 3)
+            fwd = lambda x: convolve1d(x, w, mode="wrap")
+            def adj(y): return convolve1d(y, w[::-1], mode="wrap")
+        elif view == "roll":
+            sh = 1 + int(rs.randint(0, 2))
+            fwd = lambda x: np.roll(x, sh)
+            def adj(y): return np.roll(y, -sh)
+        elif view == "flip":
+            fwd = lambda x: np.flip(x)
+            def adj(y): return np.flip(y)
+        else:
+            fwd = lambda x: np.cumsum(x, axis=-1)
+            def adj(y): return np.flip(np.cumsum(np.flip(y), axis=-1))
     elif view == "image_identity":
         idx = np.arange(nd); fwd = lambda X: X
         def adj(Y): return Y
@@ -1007,12 +1110,19 @@ def _run_funcview(case, ctx, cfg, rs):
         idx = np.arange(nd).reshape(dshape).T.reshape(-1); fwd = lambda X: X.T
         def adj(Y): return Y.T
         rspec["shape"] = [dshape[1], dshape[0]]
-    if len(dshape) == 1 and len(idx) != nd:
-        if dspec["g"] == "image_visual":
-            rspec["shape"] = [len(idx), 1]
-        else:
-            rspec["n"] = len(idx)
-    M = np.zeros((len(idx), nd)); M[np.arange(len(idx)), idx] = 1.0      # selection in C-flattened function space
+    if idx is None:
+        M = np.column_stack([np.array(fwd(e), dtype=float) for e in np.eye(nd)])   # the user's own operator on unit vectors
+        Mt = np.column_stack([np.array(adj(e), dtype=float) for e in np.eye(nd)])
+        if not np.allclose(Mt, M.T, atol=1e-12):
+            ctx.inconclusive("harness: the per-vector callables are not an adjoint pair")
+            return
+    else:
+        if len(dshape) == 1 and len(idx) != nd:
+            if dspec["g"] == "image_visual":
+                rspec["shape"] = [len(idx), 1]
+            else:
+                rspec["n"] = len(idx)
+        M = np.zeros((len(idx), nd)); M[np.arange(len(idx)), idx] = 1.0      # selection in C-flattened function space
     kb, model = core.outcome(lambda: cuqi.model.LinearModel(fwd, adj, range_geometry=_build_geom(rspec), domain_geometry=_build_geom(dspec)))
     if kb != "value":
         ctx.refused("construct", model) if kb == "refused" else ctx.violation("crash", {**cfg, "op": "construct"}, detail=repr(model))
@@ -1026,7 +1136,11 @@ def _run_funcview(case, ctx, cfg, rs):
             ctx.count("forward_vs_user_operator_compared", want.shape[1])
             if got.shape != want.shape or not _exact_close(ctx, got, want):
                 ctx.violation("forward_geometry_mismatch" if nm != "get_matrix" else "matrix_mismatch", {**cfg, "what": "selection_" + nm},
-                              detail=f"{nm} of the selection operator '{view}' is not the selection matrix (nonzeros {int(np.count_nonzero(got))} vs {int(np.count_nonzero(want))})")
+                              detail=f"{nm} of the per-vector operator '{view}' is not the operator's own matrix (nonzeros {int(np.count_nonzero(got))} vs {int(np.count_nonzero(want))})")
+    # Samples / array variants on a fresh model (get_matrix() not cached: the callables themselves are used)
+    kb, fresh = core.outcome(lambda: cuqi.model.LinearModel(fwd, adj, range_geometry=_build_geom(rspec), domain_geometry=_build_geom(dspec)))
+    if kb == "value":
+        samples_inputs(fresh, ctx, cfg, rs, r1, "view-returning callables")
 
 # ----------------------------------------------------------------------------- test problems
 
